@@ -60,11 +60,14 @@ def before(f, a, b):
 
 def run(rep):
     w = rep.world('dev')
-    q1(rep, w)
-    q2(rep, w)
-    q3(rep, w)
-    q4(rep, w)
-    q5(rep, w)
+    rep.guard(q1, rep, w)
+    rep.guard(q2, rep, w)
+    rep.guard(q3, rep, w)
+    rep.guard(q4, rep, w)
+    rep.guard(q5, rep, w)
+    rep.guard(q6, rep, w)
+    import c05
+    rep.guard(c05.e4, rep, w)     # a range being iterated is never rewritten (shared immutable values)
 
 
 def q1(rep, w):
@@ -212,3 +215,14 @@ def q5(rep, w):
                     w.fns[x['impl']['mark']].loc())
     if seen < 4:
         raise Broken('C18', 'floor', 'iterator types with an iterable edge: %d' % seen)
+
+
+def q6(rep, w):
+    """"any object offering the iteration protocol": the for loop calls `next` exactly the way a written `it.next()` does - through
+    Vm::invoke, which looks at the instance's own fields and module attributes before the class"""
+    r = rep.rule('Q6', 'IterNext dispatches `next` through the same look-up as a written it.next() (Vm::invoke)', floor=1)
+    f = w.require_fn(VM + 'iter_next_impl', 'C18')
+    callees = [callee_name(t) for _, t in f.calls()]
+    r.check(VM + 'invoke' in callees and VM + 'invoke_from_class' not in callees, 'iter_next_impl -> Vm::invoke', 'iter_next_impl dispatches through %s: an iterator whose `next` is a closure '
+            'stored in a field (or that shadows the class method) iterates differently in a for loop than by hand' %
+            sorted(x.rsplit('::', 1)[-1] for x in callees if x and 'invoke' in x), f.loc())
